@@ -207,7 +207,8 @@ inductive ClassStmt
   | assign (name : Str) (value : Val)
 deriving Repr, Inhabited
 
-/-- `needs_quoting(typ)` -/
+/-- `needs_quoting(typ)`: a bare `Name` is `str` itself; anything else (subscripts, PEP 604 `X | Y` = `binop`, dotted names,
+    forward-reference string constants) is searched with `ast.walk` for a `str` name or a string constant -/
 def needsQuoting (t : TExpr) : Bool :=
   match t with
   | .name i => i == sStr
